@@ -16,11 +16,11 @@ import (
 
 	"kvassverif/internal/sc"
 	"tkestack.io/kvass/pkg/coordinator"
-	"tkestack.io/kvass/pkg/target"
 	"tkestack.io/kvass/pkg/discovery"
 	"tkestack.io/kvass/pkg/explore"
 	"tkestack.io/kvass/pkg/prom"
 	"tkestack.io/kvass/pkg/scrape"
+	"tkestack.io/kvass/pkg/target"
 )
 
 // pipeline is the coordinator-side object graph.
